@@ -5,12 +5,14 @@ import (
 	"fmt"
 	"io"
 	"os"
+	"sync"
 )
 
 var (
-	debugOutput     io.Writer = os.Stderr
-	debugFile                 = flag.String("debugFile", "", "File to send debug info to")
-	debugInitCalled           = false
+	debugOutput io.Writer = os.Stderr
+	debugFile             = flag.String("debugFile", "", "File to send debug info to")
+	// terminals on different goroutines reach the debug helpers concurrently
+	debugInitOnce sync.Once
 
 	debugCursor  = new(bool)
 	debugCharSet = new(bool)
@@ -38,7 +40,6 @@ func DebugFlags() {
 }
 
 func initDebug() {
-	debugInitCalled = true
 	if *debugFile != "" {
 		f, err := os.OpenFile(*debugFile, os.O_CREATE|os.O_APPEND|os.O_WRONLY, 0644)
 		if err != nil {
@@ -59,9 +60,7 @@ func debugPause(debugFlag *bool) {
 }
 
 func debugPrintln(debugFlag *bool, args ...interface{}) {
-	if !debugInitCalled {
-		initDebug()
-	}
+	debugInitOnce.Do(initDebug)
 	if *debugFlag {
 		fmt.Fprintln(debugOutput, args...)
 		debugPause(debugFlag)
@@ -69,9 +68,7 @@ func debugPrintln(debugFlag *bool, args ...interface{}) {
 }
 
 func debugPrintf(debugFlag *bool, f string, args ...interface{}) {
-	if !debugInitCalled {
-		initDebug()
-	}
+	debugInitOnce.Do(initDebug)
 	if *debugFlag {
 		fmt.Fprintf(debugOutput, f, args...)
 		debugPause(debugFlag)
